@@ -303,23 +303,44 @@ template <class E> struct History {
     bool step(const pbt::Seg& seg, int opIndex) {
         pbt::Reader r(seg);
         int o = r.pick(6);
+        // "transposed block" mode (1/4 of the view operations): the chain starts with block(i,j,m,n).transpose() or the
+        // equivalent transpose().block(j,i,n,m) of an owner MATRIX with freely generated (i,j,m,n), biased towards the
+        // coincidences that decide whether the transposed (row-ordered) view counts as contiguous -- block width == parent
+        // row count, block height == parent column count, proper >= 2x2 blocks -- and is followed by one of: deep copy,
+        // arithmetic producing a new matrix, setTo / setToZero / = scalar / elementwiseAssign, element write, in-place updates.
+        auto word = [&](size_t k) { return k < seg.size() ? seg[k] : 0u; };
+        const bool special = (word(14) % 4) == 1;
+        int tbBias = 0, tbOrder = 0, f_i0 = 0, f_j0 = 0, f_mm = 0, f_nn = 0; bool tbBlock = false, tbTrans = false;
+        if (special) o = o % 3;
         std::unique_ptr<IView> view(baseView(o)); VM vm = baseModel(o);
         std::ostringstream d; d << "op" << opIndex << ": owner" << o << "[" << vm.m << "x" << vm.n << "]";
         int depth = r.pick(4);
+        if (special) {
+            depth = std::max(depth, 2); tbBias = word(15) % 4; tbOrder = word(16) % 3;   /* 0 transpose of block, 1 block of transpose, 2 the (equally biased) block alone */ const uint32_t wA = word(17), wB = word(18); const int M = vm.m, N = vm.n;
+            f_i0 = wA % (M + 1); f_mm = (wA / 16) % (M - f_i0 + 1); f_j0 = (wA / 256) % (N + 1); f_nn = (wA / 4096) % (N - f_j0 + 1);       // free
+            if (tbBias == 1 && M >= 2 && N >= M) { f_nn = M; f_j0 = wB % (N - M + 1); if (M >= 3) f_mm = 2 + (wB / 16) % (M - 2); f_mm = std::min(f_mm, M); f_i0 = (wB / 256) % (M - f_mm + 1); }   // width == parent rows, height < parent rows
+            if (tbBias == 2 && N >= 2 && M >= N) { f_mm = N; f_i0 = wB % (M - N + 1); if (N >= 3) f_nn = 2 + (wB / 16) % (N - 2); f_nn = std::min(f_nn, N); f_j0 = (wB / 256) % (N - f_nn + 1); }   // height == parent columns, width < parent columns
+            if (tbBias == 3 && M >= 2 && N >= 2) { f_mm = 2 + wB % (M - 1); f_nn = 2 + (wB / 16) % (N - 1); f_i0 = (wB / 256) % (M - f_mm + 1); f_j0 = (wB / 4096) % (N - f_nn + 1); }               // any block >= 2x2
+        }
         for (int s = 0; s < 3; ++s) {
             int kindSel = r.pick(8); uint32_t p1 = r.w(), p2 = r.w();
             if (s >= depth) continue;
+            bool forcedBlock = false;
+            if (special && tbOrder == 2) { if (s == 0) { kindSel = 0; forcedBlock = true; } }
+            else if (special && s < 2) { const bool blockNow = (s == 0) == (tbOrder == 0); kindSel = blockNow ? 0 : 2; forcedBlock = blockNow; }
             IView* nv = nullptr; VM nm;
             nm.neg = vm.neg; nm.herm = vm.herm; nm.depth = vm.depth + 1;
             if (kindSel <= 1) {   // block / sub-range (may be empty)
                 int i0 = vm.m ? p1 % (vm.m + 1) : 0, j0 = vm.n ? (p1 / 64) % (vm.n + 1) : 0; int mm = (p2 % 16) % (vm.m - i0 + 1), nn = ((p2 / 16) % 16) % (vm.n - j0 + 1);
                 if (vm.kind == 1) { j0 = 0; nn = 1; } if (vm.kind == 2) { i0 = 0; mm = 1; }
                 if ((p2 >> 12) & 1) { if (vm.kind != 2) mm = vm.m - i0; if (vm.kind != 1) nn = vm.n - j0; }
+                if (forcedBlock) { if (tbOrder != 1) { i0 = f_i0; j0 = f_j0; mm = f_mm; nn = f_nn; } else { i0 = f_j0; j0 = f_i0; mm = f_nn; nn = f_mm; } }   // block of the transpose: (j,i,n,m)
                 if (nullOffset(vm.idx.empty(), i0 + j0)) continue;
                 nv = view->block(i0, j0, mm, nn); nm.kind = vm.kind; nm.m = mm; nm.n = nn;
                 for (int i = 0; i < mm; ++i) for (int j = 0; j < nn; ++j) nm.idx.push_back(vm.idx[(size_t)(i0 + i) * vm.n + j0 + j]);
-                d << ".block(" << i0 << "," << j0 << "," << mm << "," << nn << ")";
+                d << ".block(" << i0 << "," << j0 << "," << mm << "," << nn << ")"; if (forcedBlock) tbBlock = true;
             } else if (kindSel == 2) {
+                if (special && s < 2 && tbOrder != 2) tbTrans = true;
                 nv = view->transpose(); nm.kind = vm.kind == 0 ? 0 : vm.kind == 1 ? 2 : 1; nm.m = vm.n; nm.n = vm.m; nm.herm = !vm.herm;
                 for (int i = 0; i < nm.m; ++i) for (int j = 0; j < nm.n; ++j) nm.idx.push_back(vm.idx[(size_t)j * vm.n + i]);
                 d << ".transpose()";
@@ -356,6 +377,11 @@ template <class E> struct History {
         ctx.label(std::string("depth:") + std::to_string(vm.depth));
         ctx.label(vm.kind == 0 ? "view:matrix" : vm.kind == 1 ? "view:vector" : "view:row");
         if (vm.neg) ctx.label("view:negated"); if (vm.herm) ctx.label("view:transposed");
+        const bool tb = special && tbBlock && tbTrans;   // block+transpose really applied (a step may be skipped at a known-finding site)
+        const bool tbCoincide = tb && f_mm >= 2 && f_nn >= 2 && f_mm < shadowOf(o).m && f_nn == shadowOf(o).m;
+        if (special && tbOrder == 2 && tbBlock) { ctx.label("view:biased-block"); if (f_mm >= 2 && f_nn >= 2 && (f_nn == shadowOf(o).m || f_mm == shadowOf(o).n || f_mm == shadowOf(o).m || f_nn == shadowOf(o).n)) ctx.label("view:biased-block:extent-coincidence"); }
+        if (tb) { ctx.label("view:transposed-block"); ctx.label(std::string("view:transposed-block/") + ET<E>::name()); ctx.label(tbOrder == 0 ? "view:transpose-of-block" : "view:block-of-transpose");
+                  if (f_mm >= 2 && f_nn >= 2) ctx.label("view:transposed-block>=2x2"); if (tbCoincide) ctx.label("view:transposed-block:width==parent-rows"); }
         // the view reads what the model says (both accessors)
         for (int i = 0; i < vm.m; ++i) for (int j = 0; j < vm.n; ++j) {
             El want = modelGet(vm, o, i, j);
@@ -363,6 +389,12 @@ template <class E> struct History {
             if (!sameEl(view->getAny(i, j), want, maxMag())) { ctx.fail(d.str() + ": getAnyElt(" + std::to_string(i) + "," + std::to_string(j) + ") differs from model"); return false; }
         }
         int op = r.pick(30); uint32_t q1 = r.w(), q2 = r.w();
+        if (special) {   // targeted operations: copy, binary operators (6 codes), fills, element write, in-place updates
+            static const int tl[] = {21, 24, 25, 26, 27, 28, 29, 1, 2, 0, 17, 7, 3, 9, 10, 5, 12, 21, 1, 24};
+            op = tl[word(19) % (sizeof tl / sizeof tl[0])];
+            if (tb) { if (op == 21 || op >= 24) ctx.label("op:deepcopy-of-transposed-block"); else if (op == 1 || op == 2 || op == 0 || op == 17) ctx.label("op:fill-through-transposed-block"); else ctx.label("op:write-through-transposed-block");
+                      if (tbCoincide) ctx.label((op == 21 || op >= 24) ? "op:deepcopy-of-transposed-block:width==parent-rows" : "op:write-through-transposed-block:width==parent-rows"); }
+        }
         dense::Rng pr(((uint64_t)q1 << 32) ^ q2 ^ 0x5bd1e995u); std::swap(pr, rng);   // per-op deterministic bulk values
         static const LD scal[] = {2, -1, 0.5, -2, 3, 0.25, -0.5, 1.5};
         CL s = CL(scal[q1 % 8], 0); if (cx.cplx && (q1 & 8)) s = CL(scal[q1 % 8], scal[(q1 / 16) % 8]);
@@ -595,7 +627,7 @@ void property(const pbt::Tape& t, pbt::Ctx& ctx) {
 pbt::Config config() {
     pbt::Config c; c.prop = "C25"; c.K = 20; c.minUnits = 1;
     c.quick = {400, 20000, 40, 8}; c.thorough = {3000, 200000, 40, 25};   // minima sized for the asan tree (~50 ms/case there, ~1 ms in main)
-    c.rule = "rapidcheck tape -> (80%) a history of <= 40 operations on a pool of 3 Matrix_, 2 Vector_, 1 RowVector_ of element type Real/float/Complex/Vec3/SpatialVec (shapes 0..8, sometimes ..12): each operation builds a view chain of depth 0..3 (block/sub-range incl. empty, transpose, negate, col, row, diag, index) on one owner and writes (scalar/element/matrix =, +=, -=, *=, /=, element write, elementwise ops, negateInPlace, row/col scaling) or queries (norms, sums, copy, products, binary operators) through it; every 4th kind of unit is an owner operation (resize, resizeKeep, clear, assign from a view of another owner, copy); all owners are compared element by element with the shadow model after every operation; (20%) fixed-size Vec/Row/Mat/SymMat arithmetic of sizes 1..6, real and complex. Non-trivial: a write through a view chain of depth >= 2, or a fixed-size case with N >= 3.";
+    c.rule = "rapidcheck tape -> (80%) a history of <= 40 operations on a pool of 3 Matrix_, 2 Vector_, 1 RowVector_ of element type Real/float/Complex/Vec3/SpatialVec (shapes 0..8, sometimes ..12): each operation builds a view chain of depth 0..3 (block/sub-range incl. empty, transpose, negate, col, row, diag, index) on one owner and writes (scalar/element/matrix =, +=, -=, *=, /=, element write, elementwise ops, negateInPlace, row/col scaling) or queries (norms, sums, copy, products, binary operators) through it; 1/4 of the view operations are 'transposed block' probes: block(i,j,m,n).transpose() or transpose().block(j,i,n,m) of an owner matrix with free (i,j,m,n), biased to block width == parent row count / height == parent column count / >= 2x2, followed by a deep copy, a binary operator producing a new matrix, setTo/setToZero/= scalar/elementwiseAssign, an element write or an in-place update; every 4th kind of unit is an owner operation (resize, resizeKeep, clear, assign from a view of another owner, copy); all owners are compared element by element with the shadow model after every operation; (20%) fixed-size Vec/Row/Mat/SymMat arithmetic of sizes 1..6, real and complex. Non-trivial: a write through a view chain of depth >= 2, or a fixed-size case with N >= 3.";
     c.assumptions = {"values are small integers and scale factors from {+-2, +-0.5, 3, 0.25, 1.5, -1}: results are compared with a relative tolerance of 1e-12 (float 3e-5) of the data magnitude", "right-hand operands are freshly built objects (no aliasing with the written view)", "documented semantics: Matrix op scalar acts on the diagonal, Vector/RowVector op scalar on every element (MatrixBase.h, TestBigMatrix.cpp)"};
     c.directed.push_back({"index-of-matrix-row", "index-view-ignores-stride", [](pbt::Ctx& ctx) {
         Matrix m(2, 2); m(0, 0) = 1; m(0, 1) = 2; m(1, 0) = 3; m(1, 1) = 4; Array_<int> ix; ix.push_back(0); ix.push_back(1);
@@ -621,7 +653,7 @@ pbt::Config config() {
         ctx.desc << "Matrix(5,0).updBlock(3,0,2,0) in a child process: " << (WIFEXITED(st) ? "exit " + std::to_string(WEXITSTATUS(st)) : std::string("killed by signal")) << "\n";
         ctx.check(WIFEXITED(st) && WEXITSTATUS(st) == 0, "block view at a non-zero offset of a matrix without elements performs nullptr + offset (UndefinedBehaviorSanitizer report)");
     }});
-    c.requiredLabels = {"elt:Real", "elt:float", "elt:Complex", "elt:Vec3", "elt:SpatialVec", "depth:2", "depth:3", "view:negated", "view:transposed", "view:vector", "view:row", "owner-op:resizeKeep", "owner-op:assign-from-view", "fixed:N=6/real", "fixed:N=3/complex", "fixed:inverse", "fixed:symmat-inverse"};
+    c.requiredLabels = {"view:biased-block", "view:biased-block:extent-coincidence", "view:transposed-block", "view:transpose-of-block", "view:block-of-transpose", "view:transposed-block/Real", "view:transposed-block/float", "view:transposed-block/Complex", "view:transposed-block/Vec3", "view:transposed-block:width==parent-rows", "op:deepcopy-of-transposed-block", "op:fill-through-transposed-block", "op:write-through-transposed-block", "op:deepcopy-of-transposed-block:width==parent-rows", "op:write-through-transposed-block:width==parent-rows", "elt:Real", "elt:float", "elt:Complex", "elt:Vec3", "elt:SpatialVec", "depth:2", "depth:3", "view:negated", "view:transposed", "view:vector", "view:row", "owner-op:resizeKeep", "owner-op:assign-from-view", "fixed:N=6/real", "fixed:N=3/complex", "fixed:inverse", "fixed:symmat-inverse"};
     return c;
 }
 } // namespace
